@@ -82,9 +82,8 @@ def staticInterest (lvl : Nat) : Kind → Interest
   | .never k => if lvl ≤ k then .always else .never
 
 /-- `Layered::register_callsite` → `pick_interest`, no per-layer filters anywhere: the outer layer
-registers first; `never` from it ends the registration (the inner stack is not asked).  Over the
-Registry every `Layered` has `inner_has_subscriber_filter` (because `inner_is_registry` compares the
-COLLECTOR type), so an inner `never` under an interested outer layer becomes `sometimes`. -/
+registers first; `never` from it ends the registration (the inner stack is not asked); a
+`sometimes` from it wins; otherwise the inner stack decides. -/
 def registerT (lvl : Nat) : Tree → Interest × List Entry
   | .leaf l => (staticInterest lvl l.kind, [(l.n, "register_callsite")])
   | .node i o =>
@@ -92,7 +91,7 @@ def registerT (lvl : Nat) : Tree → Interest × List Entry
     if ro.1 = .never then (.never, ro.2)
     else
       let ri := registerT lvl i
-      (if ro.1 = .sometimes then .sometimes else if ri.1 = .never then .sometimes else ri.1, ro.2 ++ ri.2)
+      (if ro.1 = .sometimes then .sometimes else ri.1, ro.2 ++ ri.2)
 
 def acceptsMeta (lvl : Nat) (l : Layer) : Bool :=
   match l.kind with
